@@ -211,6 +211,27 @@ def _run_naive(case, ctx):
                 ctx.check("naive.insample", _close([ins.values[p]], [exp], 1e-9, 1e-9), "naive:in-sample:%s:differs" % strategy,
                           "in-sample forecast differs from the one-step forecast from the preceding cutoff", position=p,
                           got=float(ins.values[p]), expected=exp, strategy=strategy, sp=sp, window=w_eff)
+    # the same definition after an update: the window is the last window of everything observed, whatever update_params is
+    then = (case["dseed"] // 2) % 3
+    if then and case["nan"] == "none":
+        k = 1 + (case["dseed"] // 6) % (2 * sp + 2)
+        new = np.round(rng.normal(50, 20, size=k), 3)
+        ynew = pd.Series(new, index=_index(n + k, case["off"], case["idx"])[n:])
+        ok, _ = ctx.call("naive:update-exception", f.update, ynew, update_params=(then == 2))
+        if ok:
+            ok, pred2 = ctx.call("naive:predict-after-update-exception", f.predict, steps)
+            if ok:
+                yl2 = yl + [float(v) for v in new]
+                # window_length=None is resolved at fit ("the whole training series"): without refitting that length is a fitted
+                # parameter and stays; with refitting it becomes the length of everything observed
+                wl2 = n if (wl is None and then == 1 and strategy != "last") else wl
+                ref2 = [_naive_ref(yl2, strategy, sp, wl2, h) for h in steps]
+                ctx.check("naive.oos", list(pred2.index) == [T_label + k + h for h in steps], "naive:forecast-index-after-update", "forecast index is not the new cutoff + fh",
+                          got=list(pred2.index)[:6])
+                ctx.check("naive.oos", _close(pred2.values, ref2, 1e-9, 1e-9), "naive:%s%s:after-update:differs-from-textbook" % (strategy, ":seasonal" if sp > 1 else ""),
+                          "naive forecast after update differs from its documented definition on all observations", strategy=strategy, sp=sp, window_length=wl, n=n, new_points=k,
+                          update_params=(then == 2), steps=steps, got=pred2.values.tolist(), expected=ref2)
+                ctx.tag("naive:then-update")
     if sp > 1 or w_eff < n or case["nan"] != "none":
         ctx.nontrivial = True
 
@@ -248,6 +269,33 @@ def _run_poly(case, ctx):
               "polynomial trend forecast differs from the least-squares polynomial", degree=d, intercept=icpt, n=n, rel=rel,
               got=pred.values.tolist(), expected=ref.tolist())
     ctx.event(kind="poly", degree=d, intercept=icpt, n=n, rel=rel, got=pred.values.tolist()[:4], expected=ref.tolist()[:4])
+    # the same definition after the cutoff has moved: new observations without refitting keep the polynomial of the last fit, evaluated
+    # at the requested time points counted from the new cutoff; with refitting it is the least-squares polynomial of all observations
+    then = (case["dseed"] // 2) % 3
+    if then:
+        k = 1 + (case["dseed"] // 6) % 5
+        x2 = np.arange(n + k, dtype=float)
+        new = sum(c * x2[n:] ** kk for kk, c in enumerate(coef)) + rng.normal(0, 0.5, size=k)
+        ynew = pd.Series(new, index=_index(n + k, off, case["idx"])[n:])
+        ok, _ = ctx.call("poly:update-exception", f.update, ynew, update_params=(then == 2))
+        if ok:
+            n2 = n + k
+            rel2 = [r for r in rel if r > -n2]
+            fh2 = ForecastingHorizon([off + n2 - 1 + r for r in rel2], is_relative=False) if use_abs else rel2
+            ok, pred2 = ctx.call("poly:predict-after-update-exception", f.predict, fh2)
+            if ok:
+                if then == 2:
+                    allv = np.concatenate([vals, new])
+                    beta2, *_ = np.linalg.lstsq(np.column_stack([x2 ** kk for kk in powers]), allv, rcond=None)
+                else:
+                    beta2 = beta
+                xp2 = np.array([n2 - 1 + r for r in rel2], dtype=float)
+                ref2 = np.column_stack([xp2 ** kk for kk in powers]) @ beta2
+                ctx.check("poly", list(pred2.index) == [off + n2 - 1 + r for r in rel2], "poly:forecast-index-after-update", "forecast index wrong after update", got=list(pred2.index))
+                ctx.check("poly", _close(pred2.values, ref2, 1e-6, scale + float(np.max(np.abs(ref2)))), "poly:after-update:differs-from-least-squares-polynomial-at-requested-times",
+                          "after update(update_params=%s) the forecast is not the %s polynomial evaluated at the requested time points" % (then == 2, "refitted" if then == 2 else "last fitted"),
+                          degree=d, n=n, new_points=k, rel=rel2, got=pred2.values.tolist(), expected=ref2.tolist())
+                ctx.tag("poly:then-update-%s" % ("refit" if then == 2 else "norefit"))
     if d >= 1:
         ctx.nontrivial = True
 
